@@ -19,7 +19,7 @@ import (
 // Watchdog is how long one scheduled step may run before the scheduler declares a livelock (a
 // loop that never reaches a scheduling point, e.g. a walk over a corrupted list). OnLivelock is
 // called with the partial result; it must not return (the stuck goroutine cannot be killed).
-var Watchdog = 3 * time.Second
+var Watchdog = 20 * time.Second
 var OnLivelock func(res *Result)
 
 // SiteInfo is filled by the generated sites_gen.go.
